@@ -571,36 +571,51 @@ func ruleDegreeCountsEveryEdge(w *World, r *Report, rule string) {
 	found := false
 	for _, fi := range w.FuncsOf(w.Graph) {
 		info := fi.Pkg.TypesInfo
-		var stack []ast.Node
+		// variables bound as the comma-ok of a lookup in the node table
+		existsVars := map[types.Object]bool{}
+		loopConds := map[ast.Expr]bool{}
 		ast.Inspect(fi.Decl.Body, func(x ast.Node) bool {
-			if x == nil {
-				stack = stack[:len(stack)-1]
-				return true
+			switch s := x.(type) {
+			case *ast.AssignStmt:
+				if len(s.Lhs) == 2 && len(s.Rhs) == 1 {
+					if ix, ok := unparen(s.Rhs[0]).(*ast.IndexExpr); ok && fieldOf(info, ix.X) == g.nodes {
+						existsVars[objOf(info, s.Lhs[1])] = true
+					}
+				}
+			case *ast.ForStmt:
+				if s.Cond != nil {
+					loopConds[s.Cond] = true
+				}
 			}
-			stack = append(stack, x)
+			return true
+		})
+		ast.Inspect(fi.Decl.Body, func(x ast.Node) bool {
 			inc, ok := x.(*ast.IncDecStmt)
 			if !ok || fieldOf(info, inc.X) != in || inc.Tok != token.INC {
 				return true
 			}
 			found = true
 			bad := ""
-			// guards on the way up to the function body
-			for i := len(stack) - 2; i >= 0; i-- {
-				if ifs, ok := stack[i].(*ast.IfStmt); ok {
-					existence := false
-					if ifs.Init != nil {
-						if as, ok := ifs.Init.(*ast.AssignStmt); ok && len(as.Rhs) == 1 {
-							if ix, ok := unparen(as.Rhs[0]).(*ast.IndexExpr); ok && fieldOf(info, ix.X) == g.nodes {
-								existence = true
-							}
-						}
-					}
-					if !existence {
-						bad = "the increment is conditional on " + exprStr(ifs.Cond)
-					}
+			// the conditions the increment is control dependent on: only "the node exists" (and loop bounds)
+			conds, _ := controllingCondsInfo(info, fi.Decl.Body, inc.Pos())
+			for _, cd := range conds {
+				if loopConds[cd] {
+					continue
 				}
+				c := unparen(cd)
+				if u, isU := c.(*ast.UnaryExpr); isU && u.Op == token.NOT {
+					c = unparen(u.X)
+				}
+				if existsVars[objOf(info, c)] {
+					continue
+				}
+				// node == nil / node != nil on a variable looked up in the node table
+				if be, isB := c.(*ast.BinaryExpr); isB && (be.Op == token.EQL || be.Op == token.NEQ) && (isNilIdent(info, be.X) || isNilIdent(info, be.Y)) {
+					continue
+				}
+				bad = "the increment is conditional on " + exprStr(cd)
 			}
-			// early returns before the increment in a helper
+			// a helper that holds the increment must not be able to return before it
 			if fi != g.updateDegrees {
 				ast.Inspect(fi.Decl.Body, func(y ast.Node) bool {
 					if ret, ok := y.(*ast.ReturnStmt); ok && ret.Pos() < inc.Pos() {
